@@ -586,7 +586,8 @@ def check_C02(sc, v, tier, seed, replay):
     for i, s in enumerate(shapes):
         counts = dict(zip(("reg", "pdu", "svc", "rel", "dereg"), s))
         scn, text = online.make_scenario(rnd, counts, opts={"det": i, "mnc_len": 2 + i % 2, "imsi_len": [15, 14, 13, 15][i % 4],
-                                                            "gnb_bits": 22 + (seed + 4 * (i + 3)) % 11})
+                                                            "gnb_bits": 22 + (seed + 4 * (i + 3)) % 11,
+                                                            "slow": 2 if s == (2, 2, 0, 1, 2) else 0})     # one run with a slow network
         jobs.append(("life%02d" % i, scn, text))
     runs = online.run_many(sc, emu, jobs, parallel=8, timeout=1500)
     _online_collect(v, runs, "C02", sc)
